@@ -47,11 +47,15 @@ class Path:
   def assume(self, b):
     if isinstance(b, bool):
       if not b:
+        self.notes.append('DEAD')      # an assumption that is literally false: contradictory contract/hook
+        self.notes.append('dead-after: literally false assumption; ' + str(getattr(self, 'ctx', '?')))
         raise PathEnd()
       return
     if z3.is_true(b):
       return
     if z3.is_false(b):
+      self.notes.append('DEAD')
+      self.notes.append('dead-after: literally false assumption; ' + str(getattr(self, 'ctx', '?')))
       raise PathEnd()
     self.pc.append(b)
     self.assumed.append(b)
@@ -118,6 +122,7 @@ class Explorer:
       d = False
     else:
       p.notes.append('DEAD')   # path condition itself infeasible: contradictory assumptions
+      p.notes.append('dead-after: ' + str(getattr(p, 'ctx', '?')))
       raise PathEnd()
     p.dec.append(d)
     p.pos += 1
